@@ -216,7 +216,9 @@ func zzRunTemplate(e *env.Env, st ast.Stmt) (out zzOutcome) {
 	return zzOutcome{ok: err == nil, v: v}
 }
 
-// zzSameResult: same value and same dynamic type.
+// zzSameResult: same value and same dynamic type (functions, channels and
+// pointers are distinct objects per run: their dynamic type is compared;
+// all NaNs are one value).
 func zzSameResult(a, b interface{}) bool {
 	if a == nil || b == nil {
 		return a == nil && b == nil
@@ -225,10 +227,40 @@ func zzSameResult(a, b interface{}) bool {
 	if ta != tb {
 		return false
 	}
+	switch x := a.(type) {
+	case float64:
+		return zzSameFloat(x, b.(float64))
+	case []interface{}:
+		y := b.([]interface{})
+		if len(x) != len(y) {
+			return false
+		}
+		ok := true
+		for i := range x {
+			ok = zz.And(ok, zzSameResult(x[i], y[i]))
+		}
+		return ok
+	case map[interface{}]interface{}:
+		y := b.(map[interface{}]interface{})
+		if len(x) != len(y) {
+			return false
+		}
+		ok := true
+		for k, v := range x {
+			kt := reflect.TypeOf(k)
+			if kt != nil && (kt.Kind() == reflect.Ptr || kt.Kind() == reflect.Chan || kt.Kind() == reflect.Float64) {
+				continue // keys that are distinct objects per run / NaN: only the count is compared
+			}
+			w, has := y[k]
+			if !has {
+				return false
+			}
+			ok = zz.And(ok, zzSameResult(v, w))
+		}
+		return ok
+	}
 	switch ta.Kind() {
-	case reflect.Func, reflect.Chan:
-		return true // distinct objects per run; dynamic type compared above
-	case reflect.Ptr:
+	case reflect.Func, reflect.Chan, reflect.Ptr:
 		return true
 	}
 	return reflect.DeepEqual(a, b)
@@ -242,12 +274,22 @@ func zzC20(chainLen int) {
 		hops[i] = zz.Choose(hNumHops)
 	}
 	id := t + "/" + uNames[c] + "/" + hNames[hops[0]]
+	if t == "item-assign-target" && (c == uStringEmpty || c == uStringABC || c == uStringNumeral || c == uSliceEmpty) {
+		// the store must re-bind its target (string rebuild, append at len):
+		// whether that is possible depends on the target expression being an
+		// l-value, not on the value's provenance
+		return
+	}
 
 	// run 1: literal operand
 	zzTapeStart()
 	e1 := env.NewEnv()
 	v1 := zzValueOf(c)
-	r1 := zzRunTemplate(e1, zzTemplate(e1, t, zzLitRV(v1)))
+	var x1 ast.Expr = zzLitRV(v1)
+	if t == "item-assign-target" {
+		x1 = zzThrough(e1, hVar, v1, x1, 2)
+	}
+	r1 := zzRunTemplate(e1, zzTemplate(e1, t, x1))
 
 	// run 2: the same value through the provenance chain, fresh environment
 	zzTapeReplay()
